@@ -19,6 +19,7 @@ MaxMsg == B4!MOpt(57, <<5, 220>>)
 \* the caller's own modifiers (harness/leasesim): host name "leasesim", two more requested options, class identifier "vh"
 UserMods == <<B4!MOpt(12, <<108, 101, 97, 115, 101, 115, 105, 109>>), B4!M("reqopts", <<42, 67>>), B4!MOpt(60, <<118, 104>>)>>
 Kind4(tx) == LET t == B4!OptVal(tx.pkt, 53) IN IF t = <<1>> THEN "first" ELSE IF t = <<3>> THEN "second" ELSE "other"
+KindI(tx) == IF B4!OptVal(tx.pkt, 53) = <<8>> THEN "first" ELSE "other"
 SidOf(pkt) == B4!OptVal(pkt, 54)
 DestOf(sid) == IF sid = <<>> THEN ":67" ELSE ToString(sid[1]) \o "." \o ToString(sid[2]) \o "." \o ToString(sid[3]) \o "." \o ToString(sid[4]) \o ":67"
 
@@ -59,6 +60,19 @@ Agree4(x, o) ==
            /\ \/ r.txs[1].dest = DestOf(SidOf(r.ackpkt))
               \/ o.cfg.raw /\ SidOf(r.ackpkt) = <<>> /\ r.txs[1].dest = "0.0.0.0:67"     \* no address: all zeroes in a frame
 
+\* the INFORM exchange: every transmission is the same INFORM (hardware address, the caller's local address in ciaddr, the
+\* caller's modifiers, no server identifier), sent where the client was told to send; it ends with the first ACK that
+\* passes the transaction filter (that very ACK is returned), or with the no-response error after the last try
+AgreeInform(x, o) ==
+    LET n == Len(o.txs) IN
+    /\ o.res.kind = x.result
+    /\ (x.result = "ack" => o.res.final = x.fi)
+    /\ [i \in 1..n |-> KindI(o.txs[i])] = x.txs
+    /\ \A i \in 1..n : /\ o.txs[i].dest = o.cfg.srv
+                        /\ o.txs[i].pkt = B4!Build("Inform", [hw |-> o.cfg.mac, ip |-> o.cfg.ip], UserMods, o.txs[i].pkt.xid)
+                        /\ o.txs[i].pkt = o.txs[1].pkt
+                        /\ SidOf(o.txs[i].pkt) = <<>>
+
 Kind6(tx) == IF ~Has(tx, "mt") THEN "other" ELSE IF tx.mt = 1 THEN "first" ELSE IF tx.mt = 3 THEN "second" ELSE "other"
 Agree6(x, o) ==
     LET n == Len(o.txs) IN
@@ -77,7 +91,7 @@ Agree6(x, o) ==
            /\ LET want == B6!Request(adv.v, req.v.xid) IN want.ok /\ req.v = want.v
 
 Agree(e) == /\ Has(e.obs.res, "kind")
-            /\ IF e.exp.proto = 4 THEN Agree4(e.exp, e.obs) ELSE Agree6(e.exp, e.obs)
+            /\ IF e.exp.proto = 4 THEN (IF e.exp.inform THEN AgreeInform(e.exp, e.obs) ELSE Agree4(e.exp, e.obs)) ELSE Agree6(e.exp, e.obs)
 
 ShardLo(k) == ((k - 1) * N) \div NShards + 1
 ShardHi(k) == (k * N) \div NShards
